@@ -76,12 +76,14 @@ class C14(CacheProp):
                 # every stored entry that carries an expiration is filed in some bucket of the expiry index (else no sweep
                 # will ever reach it)
                 d0 = parse_dump(st["raw"])
-                filed = {x.split(":")[1] for x in d0.get("buckets", [])}
+                last0 = int(d0.get("last", ["0"])[0])
+                # (only buckets beyond the sweep's frontier count: a bucket at or behind it is never visited again)
+                filed = {x.split(":")[1] for x in d0.get("buckets", []) if int(x.split(":")[0]) > last0}
                 for x in d0.get("store", []):
                     k, _, v, exp = x.split(":")
                     if int(exp) != 0 and k not in filed:
                         fails.append("op %d: value %s (key %s) carries an expiration but is filed in no bucket of the expiry "
-                                     "index: it will never be reclaimed" % (st["n"], v, k))
+                                     "index beyond the sweep's frontier: it will never be reclaimed" % (st["n"], v, k))
             if op[0] == "dump" and st["n"] > 0 and tr.steps[st["n"] - 1]["op"][0] in ("sweep", "sweeprw"):
                 d = parse_dump(st["raw"])
                 cur_cleanup = (now // 10 ** 9) // bdur          # cleanupBucket(now) = storageBucket(now) - 1
